@@ -1,4 +1,5 @@
 import NettyVerif.Proofs.Chan
+import NettyVerif.Props.C17
 /-! # C01 — Accepted writes reach the transport exactly once, in order, intact
 
 Over the Chan LTS (Model/Chan.lean): `accepted` is the ghost list of payloads in acceptance order
@@ -68,6 +69,22 @@ example : (run (init false 1 true : St Nat)
     [.beginWrite, .beginWrite, .enqueue 1, .casWriter, .exec, .sndRecv, .enqueue 2, .casWriter, .sndWritev true, .sndPut, .sndLen1, .sndRecv, .sndWritev true]).map
       (fun s => (s.wire, s.accepted, s.q)) = some ([1, 2], [1, 2], []) := by decide
 
+/-! ## down to the connection: the transport wrappers of transport/buffered.go
+
+The channel hands its packets to a `transport.Transport`; with read / write buffering configured
+that is one of the four wrappers of buffered.go. Whatever sequence of Write / Writev / Flush calls
+the channel issues, the bytes reaching the connection are a prefix of the bytes written, in call
+order — for every wrapper the extractor finds in the current source (T3, `Gen/Routing.lean`). -/
+open NettyVerif.Transport in
+theorem C01_connection_gets_a_prefix (r : Route) (hr : r ∈ Gen.Routing.routes) (size : Nat) (ops : List Op) :
+    (Transport.run r { size := size } ops).conn <+: written ops := by
+  have hgood : r.good = true := by
+    have := NettyVerif.C17.C17_routing_extracted_ok.1
+    exact List.all_eq_true.1 this r hr
+  have h := (NettyVerif.C17.C17_write_stream r hgood ops { size := size } (fun _ => rfl)).1
+  simp only [List.nil_append] at h
+  exact ⟨_, h⟩
+
 end NettyVerif.C01
 
 #print axioms NettyVerif.C01.C01_fifo
@@ -75,3 +92,4 @@ end NettyVerif.C01
 #print axioms NettyVerif.C01.C01_sync_exact
 #print axioms NettyVerif.C01.C01_acceptance_appends
 #print axioms NettyVerif.C01.C01_wire_only_grows
+#print axioms NettyVerif.C01.C01_connection_gets_a_prefix
